@@ -16,6 +16,7 @@ import (
 	"encoding/binary"
 	"fmt"
 	"io"
+	"iter"
 	"log/slog"
 	"sort"
 	"strconv"
@@ -254,15 +255,68 @@ type c15World struct {
 	opAcked   bool
 }
 
+// c15Loc serialises access to the in-memory storage location (the store writes and removes snapshot files from
+// background goroutines; the repository's in-memory S3 double has no lock of its own).
+type c15Loc struct {
+	mu  sync.Mutex
+	loc locations.StorageLocation
+}
+
+func (l *c15Loc) Write(path string, data io.Reader) (string, error) {
+	l.mu.Lock()
+	defer l.mu.Unlock()
+	return l.loc.Write(path, data)
+}
+func (l *c15Loc) Read(path string) ([]byte, error) {
+	l.mu.Lock()
+	defer l.mu.Unlock()
+	return l.loc.Read(path)
+}
+func (l *c15Loc) List() iter.Seq2[string, error] {
+	l.mu.Lock()
+	defer l.mu.Unlock()
+	type ent struct {
+		p string
+		e error
+	}
+	var all []ent
+	for p, e := range l.loc.List() {
+		all = append(all, ent{p, e})
+	}
+	return func(yield func(string, error) bool) {
+		for _, x := range all {
+			if !yield(x.p, x.e) {
+				return
+			}
+		}
+	}
+}
+func (l *c15Loc) URI(path string) (string, error) {
+	l.mu.Lock()
+	defer l.mu.Unlock()
+	return l.loc.URI(path)
+}
+func (l *c15Loc) Copy(src string, dst string) error {
+	l.mu.Lock()
+	defer l.mu.Unlock()
+	return l.loc.Copy(src, dst)
+}
+func (l *c15Loc) Remove(paths ...string) error {
+	l.mu.Lock()
+	defer l.mu.Unlock()
+	return l.loc.Remove(paths...)
+}
+
 type c15Discard struct{}
 
 func (c15Discard) Write(p []byte) (int, error) { return len(p), nil }
 
 func newC15World(w, d, c0 int) (*c15World, error) {
-	loc, err := locations.NewS3Location(objstore.NewMemoryS3Service(), "s3://bucket/job")
+	mem, err := locations.NewS3Location(objstore.NewMemoryS3Service(), "s3://bucket/job")
 	if err != nil {
 		return nil, err
 	}
+	loc := &c15Loc{loc: mem}
 	if c0 > 0 {
 		data, err := gproto.Marshal(&snapshotpb.JobCheckpoint{Id: uint64(c0),
 			SourceCheckpoints: []*snapshotpb.SourceCheckpoint{{CheckpointId: uint64(c0)}},
@@ -792,6 +846,19 @@ func c15Impl(c lib.Case) []string {
 			})
 		case len(a) == 4 && a[0] == "bar":
 			o = w.barrier(atoi(a[1]), atoi(a[2]), uint64(atoi(a[3])))
+		case len(a) == 3 && a[0] == "hbx":
+			// instance of Props/C15 heartbeat_expiry_exact on the real LivenessTracker: purged ⇔ age > deadline
+			d, age := atoi(a[1]), atoi(a[2])
+			clk := clocks.NewFrozenClock()
+			lt := jobs.NewLivenessTracker(clk, time.Duration(d)*time.Second)
+			lt.Heartbeat("x")
+			clk.Advance(time.Duration(age) * time.Second)
+			purged := len(lt.Purge()) == 1
+			if purged == (age > d) {
+				o = "ok"
+			} else {
+				o = fmt.Sprintf("purged=%v age=%d deadline=%d", purged, age, d)
+			}
 		case len(a) == 1 && a[0] == "st":
 			if w.sync() {
 				o = w.state()
@@ -818,20 +885,20 @@ var _ io.Writer = c15Discard{}
 // The generator keeps a rough mirror of the job (status, registry, heartbeats, assembly, checkpoint counter) so that
 // it mostly proposes actions that are enabled; the mirror is a sampling heuristic only and is never an oracle.
 type c15Gen struct {
-	r        *lib.Rng
-	w, d     int
-	ops      []string
-	now      int
-	regO     []int
-	regS     []int
-	hb       map[int]int
-	status   string // Init, Paused, Starting, Running
-	asmO     []int
-	asmS     []int
-	ck       int
-	pending  bool
-	acked    map[string]bool
-	deploys  int
+	r       *lib.Rng
+	w, d    int
+	ops     []string
+	now     int
+	regO    []int
+	regS    []int
+	hb      map[int]int
+	status  string // Init, Paused, Starting, Running
+	asmO    []int
+	asmS    []int
+	ck      int
+	pending bool
+	acked   map[string]bool
+	deploys int
 }
 
 func (g *c15Gen) add(s string, a ...any) { g.ops = append(g.ops, fmt.Sprintf(s, a...)) }
@@ -1019,7 +1086,17 @@ func (g *c15Gen) fault() {
 }
 
 func (g *c15Gen) noise() {
-	switch g.r.Intn(7) {
+	switch g.r.Intn(9) {
+	case 7, 8:
+		// a duplicate of a message of the current round (a repeated barrier parks its sender)
+		var sent []string
+		for st := range g.acked {
+			sent = append(sent, st)
+		}
+		sort.Strings(sent)
+		if len(sent) > 0 {
+			g.add("%s", lib.Pick(g.r, sent))
+		}
 	case 0:
 		g.add("ack s %d %d", g.node(), g.r.Range(0, g.ck+1))
 	case 1:
@@ -1112,6 +1189,7 @@ func c15Gen1(r *lib.Rng, tier string, idx int) lib.Case {
 			}
 		}
 	}
+	g.add("hbx %d %d", d, r.Range(0, 2*d+1))
 	g.add("st")
 	return lib.Case{Header: c15Header(w, d, c0), Ops: g.ops}
 }
@@ -1131,7 +1209,8 @@ func c15Fixed() []lib.Case {
 		// failed deployment, standby present, heartbeat expiry
 		{Header: c15Header(2, 5, 4), Ops: []string{
 			"reg o 0", "reg o 1", "reg o 2", "reg s 3", "reg s 4", "deployfail 1", "deployok", "tick", "adv 6",
-			"reg o 0", "st", "reg o 2", "reg s 3", "reg s 4", "reg o 5", "deployok", "tick", "st"}},
+			"reg o 0", "st", "reg o 2", "reg s 3", "reg s 4", "reg o 5", "deployok", "tick", "st",
+			"hbx 5 4", "hbx 5 5", "hbx 5 6", "hbx 0 0", "hbx 0 1"}},
 	}
 }
 
@@ -1142,7 +1221,7 @@ func propC15() *lib.Prop {
 		Rule: "cases = action sequences (register/deregister/advance clock/deploy result/tick/acks/barriers) on the real Job with real Store and real Operators; non-trivial = the job was redeployed after having been Running and a job checkpoint was published after that redeploy, or a deployment failed",
 		NumCases: func(tier string) int {
 			if tier == "thorough" {
-				return 4000
+				return 12000
 			}
 			return 500
 		},
